@@ -186,6 +186,11 @@ func (r *rng) jsonNumber() string {
 	if r.chance(1, 6) {
 		return r.jsonBorderInt()
 	}
+	if r.chance(1, 40) {
+		// a valid literal longer than the parser's 64 byte inline buffer
+		z := strings.Repeat("0", 60+r.n(30))
+		return []string{"0." + z + "125", "1" + z + ".0", "-0." + z + "5e3", "12" + z, "1." + z + "1"}[r.n(5)]
+	}
 	switch r.n(5) {
 	case 0:
 		return strconv.FormatInt(intPool[r.n(len(intPool))], 10)
@@ -368,9 +373,17 @@ func init() {
 		name: "json",
 		newVisitor: func(w io.Writer, cfg int) (structform.Visitor, func() int) {
 			vs := sfjson.NewVisitor(w)
-			vs.SetEscapeHTML(cfg&1 != 0)
-			vs.SetIgnoreInvalidFloat(cfg&2 != 0)
-			vs.SetExplicitRadixPoint(cfg&4 != 0)
+			// a setter is only called where the setting differs from the visitor's default:
+			// the defaults themselves must be right, whatever other visitors have been told
+			if cfg&1 == 0 {
+				vs.SetEscapeHTML(false)
+			}
+			if cfg&2 != 0 {
+				vs.SetIgnoreInvalidFloat(true)
+			}
+			if cfg&4 != 0 {
+				vs.SetExplicitRadixPoint(true)
+			}
 			return vs, func() int { d, _ := vs.VerifDepth(); return d }
 		},
 		newParser:   func(vs structform.Visitor) parserI { return jsonParser{sfjson.NewParser(vs)} },
